@@ -50,13 +50,36 @@ func (f *Tagbody) Call(s *slip.Scope, args slip.List, depth int) slip.Object {
 	ns.TagBody = true
 	d2 := depth + 1
 	for i := 0; i < len(args); i++ {
-		if gt, _ := slip.EvalArg(ns, args, i, d2).(*GoTo); gt != nil {
-			for i++; i < len(args); i++ {
-				if args[i] == gt.Tag {
+		if isTag(args[i]) {
+			continue
+		}
+		switch tr := slip.EvalArg(ns, args, i, d2).(type) {
+		case *slip.ReturnResult:
+			return tr
+		case *GoTo:
+			// A tag can be before or after the go. If the tag is not in
+			// this tagbody it belongs to an enclosing one.
+			found := false
+			for j, a := range args {
+				if isTag(a) && slip.ObjectEqual(a, tr.Tag) {
+					i = j
+					found = true
 					break
 				}
+			}
+			if !found {
+				return tr
 			}
 		}
 	}
 	return nil
+}
+
+// isTag returns true if the tagbody statement is a tag and not a form.
+func isTag(obj slip.Object) bool {
+	switch obj.(type) {
+	case slip.Symbol, slip.Integer:
+		return true
+	}
+	return obj == slip.True // t is read as true and not as a symbol
 }
